@@ -14,9 +14,14 @@ def gen_case(rnd, moduli):
     ins = []
     def secret(v):
         r = reg(); prog.append(["input", r, "priv", len(ins)]); ins.append(v); return r
+    cvals = {}
     def const(v):
-        r = reg(); prog.append(["const", r, ["int", v]]); return r
+        r = reg(); prog.append(["const", r, ["int", v]]); cvals[r] = v; return r
     two_d = rnd.random() < 0.35
+    # the [row] * n idiom: every row of the matrix is ONE Array object.  Writes whose first index is secret re-bind rows (value
+    # semantics, as in the model); a write through a public first index would mutate the shared object in place as plain Python
+    # lists of lists do, so such writes are not generated for these arrays
+    alias = two_d and rnd.random() < 0.3
     small = lambda: rnd.randrange(0, 4)
     def elem():
         return secret(small()) if rnd.random() < 0.6 else const(small())
@@ -26,6 +31,7 @@ def gen_case(rnd, moduli):
         for _ in range(rows):
             es = [elem() for _ in range(cols)]
             rr = reg(); prog.append(["arrnew", rr, es]); rregs.append(rr)
+            if alias: rregs = [rr] * rows; break
         a = reg(); prog.append(["arrnew", a, rregs])
         shape = (rows, cols)
     else:
@@ -46,8 +52,9 @@ def gen_case(rnd, moduli):
         if rnd.random() < 0.5 or len(idx) < len(shape):
             prog.append(["arrget", reg(), a, idx])
         else:
+            if alias and idx[0] in cvals: idx[0] = secret(cvals[idx[0]])
             prog.append(["arrset", a, idx, elem()])
-    if two_d and rnd.random() < 0.35:
+    if two_d and not alias and rnd.random() < 0.35:
         # a row selected with a secret index is stored at a public position, then one cell of the stored row is written through a
         # public row index: the write must land in the array (the stored row is a read-only view of the selection)
         rr = reg(); prog.append(["arrget", rr, a, [secret(rnd.randrange(0, shape[0]))]])
@@ -168,6 +175,23 @@ def fixed_cases(p):
             base = [1, 2, 3, 1, 0]
             out.append(dict(cfg=dict(p=p, n=5, res=1, ign=0), prog=prog, ins=base, fixed=1,
                             alt_ins=[[1, 2, 3, 2, 0], [1, 2, 3, 5, 0], [1, 2, 3, -1, 1], [1, 2, 3, 0, 3], [1, 2, 3, 2, 2], [3, 3, 1, 7, 1]]))
+    return out
+
+
+def alias_cases(p):
+    """matrices whose rows are one and the same Array object ([row] * n): a cell write / a whole-row write through a SECRET row
+    index changes the selected row only; everything is read back with public indexes"""
+    out = []
+    for rows in (2, 3):
+        for rowwrite in (False, True):
+            for x in range(rows):
+                prog = [["input", 0, "priv", 0], ["input", 1, "priv", 1], ["input", 2, "priv", 2], ["const", 3, ["int", 0]], ["input", 4, "priv", 3],
+                        ["arrnew", 5, [3, 4]], ["arrnew", 6, [5] * rows]]
+                if rowwrite: prog += [["arrnew", 7, [2, 1]], ["arrset", 6, [0], 7]]
+                else: prog += [["arrset", 6, [0, 1], 2]]
+                prog += [["const", 10 + i, ["int", i]] for i in range(3)]
+                prog += [["arrget", 20 + 2 * i + j, 6, [10 + i, 10 + j]] for i in range(rows) for j in range(2)]
+                out.append(dict(cfg=dict(p=p, n=5, res=1, ign=0), prog=prog, ins=[x, 1, 3, 2]))
     return out
 
 
